@@ -630,6 +630,13 @@ func (p *Parser) parseTernaryExpression(condition ast.Expression) ast.Expression
 		return nil
 	}
 
+	// The flag covers a ternary inside one of our branches; the
+	// condition was parsed before we were called, so look inside it.
+	if containsTernary(condition) {
+		p.errors = append(p.errors, fmt.Sprintf("nested ternary expressions are illegal around %s", p.curToken.Position()))
+		return nil
+	}
+
 	p.tern = true
 	defer func() { p.tern = false }()
 
@@ -664,6 +671,42 @@ func (p *Parser) parseTernaryExpression(condition ast.Expression) ast.Expression
 	}
 
 	return expression
+}
+
+// containsTernary reports whether the given expression is, or has as one
+// of its operands, a ternary expression.
+func containsTernary(exp ast.Expression) bool {
+	switch node := exp.(type) {
+	case *ast.TernaryExpression:
+		return true
+	case *ast.PrefixExpression:
+		return containsTernary(node.Right)
+	case *ast.InfixExpression:
+		return containsTernary(node.Left) || containsTernary(node.Right)
+	case *ast.IndexExpression:
+		return containsTernary(node.Left) || containsTernary(node.Index)
+	case *ast.AssignStatement:
+		return containsTernary(node.Value)
+	case *ast.CallExpression:
+		for _, arg := range node.Arguments {
+			if containsTernary(arg) {
+				return true
+			}
+		}
+	case *ast.ArrayLiteral:
+		for _, el := range node.Elements {
+			if containsTernary(el) {
+				return true
+			}
+		}
+	case *ast.HashLiteral:
+		for _, key := range node.Keys {
+			if containsTernary(key) || containsTernary(node.Pairs[key]) {
+				return true
+			}
+		}
+	}
+	return false
 }
 
 // parseGroupedExpression parses a grouped-expression.
